@@ -139,7 +139,7 @@ def check_chr(case) -> Outcome:
 
 
 # ---- unescape ---------------------------------------------------------------------------------------------
-UNESC_PIECES = [b"%41", b"%zz", b"%", b"a", b"%2f", b"%2F", b"%u0041", b"%4", b"\xe9", b"%E9", b"%e9", b" ", b"%00", b"%25", b"%%", b"xyz", b"%7e", b"\x00", b'"', b"(", b")"]
+UNESC_PIECES = [b"%41", b"%zz", b"%", b"a", b"%2f", b"%2F", b"%u0041", b"%4", b"\xe9", b"%E9", b"%e9", b" ", b"%00", b"%25", b"%%", b"xyz", b"%7e", b"\x00", b'"', b"(", b")", b"+", b"a+b", b"%2B", b"+%20+"]
 
 
 def unescape_cases():
